@@ -135,12 +135,29 @@ PROPS["C11"] = {
 C05_CODEC = [
     H("c05_subpacket_len_parse_total", "c05_codec", "quick", 600, "every 5-octet string: SubpacketLength parser == RFC decoder, re-serialises identically, write_len", ["packet::SubpacketLength::{try_from_reader,to_writer,write_len,len}"], "5 arbitrary octets"),
     H("c05_subpacket_len_encode", "c05_codec", "quick", 600, "every u32: encode is minimal RFC class, roundtrips", ["packet::SubpacketLength::{encode,to_writer,try_from_reader}"], "full u32"),
-    H("c05_s2k_roundtrip_2", "c05_codec", "quick", 600, "every 2-octet string as S2K specifier", ["types::StringToKey::{try_from_reader,to_writer,write_len,id}"], "2 arbitrary octets"),
-    H("c05_s2k_roundtrip_9", "c05_codec", "thorough", 900, "every 9-octet string (truncated salted forms)", ["types::StringToKey::{try_from_reader,to_writer,write_len,id}"], "9 arbitrary octets"),
-    H("c05_s2k_roundtrip_11", "c05_codec", "quick", 900, "every 11-octet string (iterated+salted complete)", ["types::StringToKey::{try_from_reader,to_writer,write_len,id}"], "11 arbitrary octets"),
-    H("c05_s2k_roundtrip_20", "c05_codec", "quick", 1200, "every 20-octet string (argon2 complete)", ["types::StringToKey::{try_from_reader,to_writer,write_len,id}"], "20 arbitrary octets"),
-    H("c05_mpi_roundtrip_4", "c05_codec", "quick", 900, "every 4-octet string with bit count <= 32 as MPI", ["types::Mpi::{try_from_reader,to_writer,write_len}", "parsing_reader::BufReadParsing::take_bytes"], "4 octets, bits<=32"),
-    H("c05_mpi_roundtrip_6", "c05_codec", "quick", 1200, "every 6-octet string with bit count <= 32 as MPI", ["types::Mpi::{try_from_reader,to_writer,write_len}", "parsing_reader::BufReadParsing::take_bytes"], "6 octets, bits<=32"),
+    H("c05_s2k_simple", "c05_codec", "quick", 600, "S2K specifier type 0, 2 octets, remaining octets arbitrary: parse/serialise inverse, write_len, all-or-error", ["types::StringToKey::{try_from_reader,to_writer,write_len,id}", "parsing_reader::BufReadParsing::{read_arr,rest}"], "type 0, 2 octets"),
+    H("c05_s2k_simple_trunc", "c05_codec", "thorough", 600, "S2K specifier type 0 truncated, remaining octets arbitrary: parse/serialise inverse, write_len, all-or-error", ["types::StringToKey::{try_from_reader,to_writer,write_len,id}", "parsing_reader::BufReadParsing::{read_arr,rest}"], "type 0 truncated"),
+    H("c05_s2k_salted", "c05_codec", "thorough", 600, "S2K specifier type 1, 10 octets, remaining octets arbitrary: parse/serialise inverse, write_len, all-or-error", ["types::StringToKey::{try_from_reader,to_writer,write_len,id}", "parsing_reader::BufReadParsing::{read_arr,rest}"], "type 1, 10 octets"),
+    H("c05_s2k_salted_trunc", "c05_codec", "quick", 600, "S2K specifier type 1 truncated to 9, remaining octets arbitrary: parse/serialise inverse, write_len, all-or-error", ["types::StringToKey::{try_from_reader,to_writer,write_len,id}", "parsing_reader::BufReadParsing::{read_arr,rest}"], "type 1 truncated to 9"),
+    H("c05_s2k_iterated", "c05_codec", "quick", 600, "S2K specifier type 3, 11 octets, remaining octets arbitrary: parse/serialise inverse, write_len, all-or-error", ["types::StringToKey::{try_from_reader,to_writer,write_len,id}", "parsing_reader::BufReadParsing::{read_arr,rest}"], "type 3, 11 octets"),
+    H("c05_s2k_iterated_trunc", "c05_codec", "thorough", 600, "S2K specifier type 3 truncated to 10, remaining octets arbitrary: parse/serialise inverse, write_len, all-or-error", ["types::StringToKey::{try_from_reader,to_writer,write_len,id}", "parsing_reader::BufReadParsing::{read_arr,rest}"], "type 3 truncated to 10"),
+    H("c05_s2k_argon2", "c05_codec", "quick", 600, "S2K specifier type 4, 20 octets, remaining octets arbitrary: parse/serialise inverse, write_len, all-or-error", ["types::StringToKey::{try_from_reader,to_writer,write_len,id}", "parsing_reader::BufReadParsing::{read_arr,rest}"], "type 4, 20 octets"),
+    H("c05_s2k_argon2_trunc", "c05_codec", "thorough", 600, "S2K specifier type 4 truncated to 19, remaining octets arbitrary: parse/serialise inverse, write_len, all-or-error", ["types::StringToKey::{try_from_reader,to_writer,write_len,id}", "parsing_reader::BufReadParsing::{read_arr,rest}"], "type 4 truncated to 19"),
+    H("c05_s2k_reserved", "c05_codec", "thorough", 600, "S2K specifier type 2 + 3 octets, remaining octets arbitrary: parse/serialise inverse, write_len, all-or-error", ["types::StringToKey::{try_from_reader,to_writer,write_len,id}", "parsing_reader::BufReadParsing::{read_arr,rest}"], "type 2 + 3 octets"),
+    H("c05_s2k_private_100", "c05_codec", "quick", 600, "S2K specifier type 100, remaining octets arbitrary: parse/serialise inverse, write_len, all-or-error", ["types::StringToKey::{try_from_reader,to_writer,write_len,id}", "parsing_reader::BufReadParsing::{read_arr,rest}"], "type 100"),
+    H("c05_s2k_private_110", "c05_codec", "thorough", 600, "S2K specifier type 110, remaining octets arbitrary: parse/serialise inverse, write_len, all-or-error", ["types::StringToKey::{try_from_reader,to_writer,write_len,id}", "parsing_reader::BufReadParsing::{read_arr,rest}"], "type 110"),
+    H("c05_s2k_other_111", "c05_codec", "thorough", 600, "S2K specifier type 111, remaining octets arbitrary: parse/serialise inverse, write_len, all-or-error", ["types::StringToKey::{try_from_reader,to_writer,write_len,id}", "parsing_reader::BufReadParsing::{read_arr,rest}"], "type 111"),
+    H("c05_s2k_other_5", "c05_codec", "thorough", 600, "S2K specifier type 5, remaining octets arbitrary: parse/serialise inverse, write_len, all-or-error", ["types::StringToKey::{try_from_reader,to_writer,write_len,id}", "parsing_reader::BufReadParsing::{read_arr,rest}"], "type 5"),
+    H("c05_s2k_other_255", "c05_codec", "quick", 600, "S2K specifier type 255, remaining octets arbitrary: parse/serialise inverse, write_len, all-or-error", ["types::StringToKey::{try_from_reader,to_writer,write_len,id}", "parsing_reader::BufReadParsing::{read_arr,rest}"], "type 255"),
+    H("c05_mpi_bits0", "c05_codec", "quick", 600, "MPI declared 0 bits, magnitude arbitrary: strip leading zeros, exact bit count, canonical identity", ["types::Mpi::{try_from_reader,to_writer,write_len}", "parsing_reader::BufReadParsing::take_bytes"], "0 bits"),
+    H("c05_mpi_bits1", "c05_codec", "thorough", 600, "MPI declared 1 bit, magnitude arbitrary: strip leading zeros, exact bit count, canonical identity", ["types::Mpi::{try_from_reader,to_writer,write_len}", "parsing_reader::BufReadParsing::take_bytes"], "1 bit"),
+    H("c05_mpi_bits8", "c05_codec", "thorough", 600, "MPI declared 8 bits, magnitude arbitrary: strip leading zeros, exact bit count, canonical identity", ["types::Mpi::{try_from_reader,to_writer,write_len}", "parsing_reader::BufReadParsing::take_bytes"], "8 bits"),
+    H("c05_mpi_bits9", "c05_codec", "quick", 600, "MPI declared 9 bits, magnitude arbitrary: strip leading zeros, exact bit count, canonical identity", ["types::Mpi::{try_from_reader,to_writer,write_len}", "parsing_reader::BufReadParsing::take_bytes"], "9 bits"),
+    H("c05_mpi_bits16", "c05_codec", "quick", 600, "MPI declared 16 bits, magnitude arbitrary: strip leading zeros, exact bit count, canonical identity", ["types::Mpi::{try_from_reader,to_writer,write_len}", "parsing_reader::BufReadParsing::take_bytes"], "16 bits"),
+    H("c05_mpi_bits17", "c05_codec", "thorough", 600, "MPI declared 17 bits, magnitude arbitrary: strip leading zeros, exact bit count, canonical identity", ["types::Mpi::{try_from_reader,to_writer,write_len}", "parsing_reader::BufReadParsing::take_bytes"], "17 bits"),
+    H("c05_mpi_bits17_trunc", "c05_codec", "quick", 600, "MPI declared 17 bits, truncated, magnitude arbitrary: strip leading zeros, exact bit count, canonical identity", ["types::Mpi::{try_from_reader,to_writer,write_len}", "parsing_reader::BufReadParsing::take_bytes"], "17 bits, truncated"),
+    H("c05_mpi_bits32", "c05_codec", "thorough", 600, "MPI declared 32 bits, magnitude arbitrary: strip leading zeros, exact bit count, canonical identity", ["types::Mpi::{try_from_reader,to_writer,write_len}", "parsing_reader::BufReadParsing::take_bytes"], "32 bits"),
+    H("c05_mpi_bits16385", "c05_codec", "quick", 600, "MPI declared 16385 bits (over the 16384 cap), magnitude arbitrary: strip leading zeros, exact bit count, canonical identity", ["types::Mpi::{try_from_reader,to_writer,write_len}", "parsing_reader::BufReadParsing::take_bytes"], "16385 bits (over the 16384 cap)"),
     H("c05_mpi_from_slice_3", "c05_codec", "quick", 900, "Mpi::from_slice on every 3-octet value (leading-zero cases)", ["types::Mpi::{from_slice,to_writer,try_from_reader}"], "3 octets"),
 ]
 PROPS["C05"] = {
@@ -151,7 +168,7 @@ PROPS["C05"] = {
                   "re-serialise identically, against independent RFC 9580 decoders.",
     "level_note": "Bounds per harness (byte-string lengths) in evidence; MPIs <= 32 bits; packet-level objects as listed. "
                   "Logging/error formatting stubbed. Kani/CBMC trusted.",
-    "bounds": "length codecs: full width; S2K specifiers 2/9/11/20 octets; MPIs <= 32 bits in 4/6 octets",
+    "bounds": "length codecs: full width; S2K specifiers: type octet in {0,1,2,3,4,5,100,110,111,255} x complete/truncated, other octets arbitrary; MPIs: declared bits in {0,1,8,9,16,17,32,16385}, magnitude arbitrary",
     "outside": "RSA/DSA/ECC parameter validation; 64 KiB subpacket areas; composite certificates beyond the listed harnesses",
     "assumptions": [FMT_STUBS],
     "harnesses": C05_CODEC + [dict(h, tier="thorough") if h["name"] not in ("c17_header_new_roundtrip", "c17_header_parse_total") else h for h in C17_CODEC],
@@ -194,4 +211,21 @@ PROPS["C09"] = {
 }
 
 PROPS["PROBE"] = {"claimed": False, "inject": [("src/lib.rs", "probe")], "mem_gb": 6, "level_text": "", "level_note": "", "bounds": "", "outside": "", "assumptions": [],
-    "harnesses": [H(n, "probe", "quick", 90) for n in ["p1_match_direct", "p2_match_in_subpacket", "p3_write_len"]]}
+    "harnesses": [H(n, "probe", "quick", 200) for n in ["q1_parse_only", "q2_parse_write", "q3_parse_write_simple_only"]]}
+
+# ------------------------------------------------------------------------------------------------
+PROPS["C04"] = {
+    "inject": [("src/lib.rs", "c04_aead")],
+    "mem_gb": 14,
+    "level_text": "Bounded model checking for absence of panics (index, slice, arithmetic overflow, unwrap/expect, unreachable) and "
+                  "bounded termination (unwinding assertions) of the real parsing / post-decryption code on attacker-chosen octets.",
+    "level_note": "Each harness fixes the input length and leaves the octets symbolic; primitives run on concrete keys. Error formatting "
+                  "and logging are no-ops. Whole-message parsing through Message::from_bytes exceeds goto-instrument's memory and is outside.",
+    "bounds": "per harness, see evidence",
+    "outside": "stack depth of nested containers; inputs longer than the harness lengths; panics inside Debug formatting; the primitives",
+    "assumptions": [FMT_STUBS],
+    "harnesses": [
+        H("c04_seipdv2_header_octets", "c04_aead", "quick", 1200, "StreamDecryptor::new_rfc9580 for every cipher/AEAD/chunk octet with a key of matching length: no panic",
+          ["crypto::aead::StreamDecryptor::new_rfc9580", "crypto::aead::aead_setup_rfc9580", "crypto::aead::AeadAlgorithm::{nonce_size,tag_size}", "crypto::sym::SymmetricKeyAlgorithm::key_size"], "3 symbolic octets"),
+    ],
+}
